@@ -134,8 +134,11 @@ class NativeTemplate(Template):
         ctx = self.new_context(dict(*args, **kwargs))
 
         try:
+            # Evaluate all nodes before they are concatenated, like
+            # render_async does: an error raised by a later node is not
+            # masked by the string conversion of an earlier one.
             return self.environment_class.concat(  # type: ignore
-                self.root_render_func(ctx)
+                list(self.root_render_func(ctx))
             )
         except Exception:
             return self.environment.handle_exception()
